@@ -2094,16 +2094,14 @@ Qed.
 
 (* ------------------------------------------------------------------ the inventory of declined points *)
 
-(* Where the translation answers Unmodelled instead of translating (a FunctionCall mapper's call with *args, the
-   camel-case conversion's generator expression, item assignment on a container that may be shared with the caller
-   -- the caller-supplied cache of serialize_val, the result of the compact branch --, setattr on the class).  None
+(* Where the translation answers Unmodelled instead of translating (item assignment on a container that may be
+   shared with the caller -- the caller-supplied cache of serialize_val, the result of the compact branch --,
+   setattr on the class).  None
    of them is on a path the theorems above cover.  Each (function, kind) is listed once; a new kind of declined
    point in a function changes this list. *)
 Example declined_inventory :
   src_declined =
-  [("_get_mapped_value", "call:keywords-or-star");
-   ("_convert_to_camel_case_if_required", "expression:GeneratorExp");
-   ("serialize_val", "item-assignment:shared-container");
+  [("serialize_val", "item-assignment:shared-container");
    ("serialize_internal", "item-assignment:shared-container");
    ("serialize_internal", "effect:setattr")]%string.
 Proof. reflexivity. Qed.
